@@ -1648,3 +1648,55 @@ def integer_dtype(n):
         dtype = np.dtype(int)
 
     return dtype
+
+
+def _creation_commands_literal(value):
+    """Return Python source text for a value in creation commands.
+
+    The text evaluates to a value equal to *value* without `numpy`
+    having been imported: numpy scalars are written as Python scalars
+    and numpy arrays as (nested) lists. Dictionaries, lists and
+    tuples are processed recursively.
+
+    .. versionadded:: (cfdm) NEXTVERSION
+
+    :Parameters:
+
+        value:
+            The value to be represented.
+
+    :Returns:
+
+        `str`
+
+    **Examples**
+
+    >>> cfdm.functions._creation_commands_literal(np.float64(38.0))
+    '38.0'
+    >>> cfdm.functions._creation_commands_literal({'a': np.array([1, 2])})
+    "{'a': [1, 2]}"
+
+    """
+    if isinstance(value, np.ma.MaskedArray):
+        value = value.tolist()
+    elif isinstance(value, (np.generic, np.ndarray)):
+        value = value.tolist()
+
+    if isinstance(value, dict):
+        items = [
+            f"{_creation_commands_literal(k)}: {_creation_commands_literal(v)}"
+            for k, v in value.items()
+        ]
+        return "{" + ", ".join(items) + "}"
+
+    if isinstance(value, list):
+        return "[" + ", ".join(map(_creation_commands_literal, value)) + "]"
+
+    if isinstance(value, tuple):
+        items = ", ".join(map(_creation_commands_literal, value))
+        if len(value) == 1:
+            items += ","
+
+        return "(" + items + ")"
+
+    return repr(value)
